@@ -63,6 +63,9 @@ public:
 
     bool init_thread() {
       p = thr < hd->size() ? hd->getRemote(thr)->first : 0;
+      // pop() can leave headers without elements in the chain
+      while (p && p->dbegin == p->dend)
+        p = p->next;
       v = p ? p->dbegin : 0;
       return p;
     }
@@ -78,6 +81,8 @@ public:
     bool advance_chunk() {
       if (p) {
         p = p->next;
+        while (p && p->dbegin == p->dend)
+          p = p->next;
         v = p ? p->dbegin : 0;
       }
       return p;
@@ -249,9 +254,9 @@ public:
 
   bool empty() const {
     for (unsigned x = 0; x < heads.size(); ++x) {
-      header* h = heads.getRemote(x)->first;
-      if (h)
-        return false;
+      for (header* h = heads.getRemote(x)->first; h; h = h->next)
+        if (h->dbegin != h->dend)
+          return false;
     }
     return true;
   }
